@@ -1,0 +1,8 @@
+//go:build !verif
+
+// Package verifhook provides instrumentation points for the verification harness (/verif).
+// Without the build tag `verif` every hook is an empty function that the compiler inlines away.
+package verifhook
+
+// Hit marks an instrumentation point.
+func Hit(point string, arg interface{}) {}
